@@ -81,6 +81,9 @@ Proof.
   destruct ((k =? 0) || ((k <=? d) && (k <? 3))); [apply lc_le_cur; exact Hr | lia].
 Qed.
 
+(* untracked reads: report_untracked_read with or without an external cell *)
+Definition untr (x : rd) : Prop := x = RTouch \/ exists c, x = RCell c.
+
 Section DurSem.
 Variable prog : qkey -> body.
 Variable rank : qkey -> nat.
@@ -93,8 +96,6 @@ Notation envat := (envat prog NF).
 
 (* the durability of every input at every revision (ghost, like the snapshot history) *)
 Definition dhist := rev -> ikey -> dur.
-
-Definition untr (x : rd) : Prop := x = RTouch \/ exists c, x = RCell c.
 
 Section Hist.
 Variable H : hist.
